@@ -2,6 +2,7 @@ use crate::{
     core::prelude::*,
     errors::prelude::*,
     extensions::prelude::*,
+    validators::prelude::*,
 };
 
 /// `ArrayTrait` - Array Search functions
@@ -63,6 +64,7 @@ impl <T: ArrayElement> ArraySearch<T> for Array<T> {
     fn argmax(&self, axis: Option<isize>, keepdims: Option<bool>) -> Result<Array<usize>, ArrayError> {
         if let Some(axis) = axis {
             let axis = self.normalize_axis(axis);
+            self.axis_in_bounds(axis)?;
             let result = self.apply_along_axis(axis, |arr| arr.argmax(None, keepdims));
             if keepdims == Some(true) { result }
             else { result.reshape(&self.get_shape()?.remove_at(axis)) }
@@ -82,6 +84,7 @@ impl <T: ArrayElement> ArraySearch<T> for Array<T> {
     fn argmin(&self, axis: Option<isize>, keepdims: Option<bool>) -> Result<Array<usize>, ArrayError> {
         if let Some(axis) = axis {
             let axis = self.normalize_axis(axis);
+            self.axis_in_bounds(axis)?;
             let result = self.apply_along_axis(axis, |arr| arr.argmin(None, keepdims));
             if keepdims == Some(true) { result }
             else { result.reshape(&self.get_shape()?.remove_at(axis)) }
